@@ -11,7 +11,8 @@ from common import frac_str
 
 RULE = ("random dimension triples (N,K,M) in 0..4 incl. zeros, dyadic complex blocks (contractive so the inner "
         "system is well conditioned), batch sizes 1-5, plus streams with mismatched intermediate dimensions and "
-        "exactly singular inner systems; distinct = distinct (dims, entries); non-trivial = K >= 1 and at least one "
+        "exactly singular inner systems, and `structured` operands whose blocks are independently zero / identity / 0-1 "
+        "permutation-like / random (through-connections, isolators, mirrors; square dimensions favoured); distinct = distinct (dims, entries); non-trivial = K >= 1 and at least one "
         "non-zero coupling block")
 TRUSTED = ["translator harness/translate/kernel.py (subset: matmul/@/dot, linalg.inv/solve, identity, +, -, block fields)",
            "numpy matmul/inv slice-wise broadcasting along the sweep axis (assumption A-numpy-batch, exercised here)"]
@@ -26,6 +27,27 @@ def rand_smat(rng, N, M, mag=0.6):
     return {"N": N, "M": M,
             "S11": gen.cmat(rng, M, N, mag=mag), "S22": gen.cmat(rng, N, M, mag=mag),
             "S12": gen.cmat(rng, M, M, mag=mag), "S21": gen.cmat(rng, N, N, mag=mag)}
+
+
+def structured_smat(rng, N, M):
+    """operand whose blocks are, independently, zero / (rectangular) identity / a permutation-like 0-1 matrix / random:
+    through-connections, isolators, perfect mirrors, crossings and everything in between"""
+    from fractions import Fraction
+
+    def block(r, c):
+        k = rng.choice(["zero", "eye", "eye", "perm", "rand"])
+        if k == "rand":
+            return gen.cmat(rng, r, c, mag=0.6)
+        m = [[gen.CZ for _ in range(c)] for _ in range(r)]
+        if k == "eye":
+            for i in range(min(r, c)):
+                m[i][i] = (Fraction(1), Fraction(0))
+        if k == "perm" and r and c:
+            cols = rng.sample(range(c), min(r, c))
+            for i, j in zip(rng.sample(range(r), min(r, c)), cols):
+                m[i][j] = (Fraction(1), Fraction(0))
+        return m
+    return {"N": N, "M": M, "S11": block(M, N), "S22": block(N, M), "S12": block(M, M), "S21": block(N, N)}
 
 
 def smat_json(A):
@@ -207,6 +229,38 @@ def gen_case(rng, kind):
         one = lambda i, j: (Fraction(1 if i == j else 0), Fraction(0))
         As[0]["S12"] = [[one(i, j) for j in range(K)] for i in range(K)]
         Bs[0]["S21"] = [[one(i, j) for j in range(K)] for i in range(K)]
+    if kind == "structured":
+        for _ in range(30):
+            c = gen_case_structured(rng, N, K, M)
+            ok = True
+            for A, B in zip(c["As"], c["Bs"]):
+                k = A["M"]
+                if k:
+                    X = np.eye(k) - gen.mat_np(A["S12"], k, k) @ gen.mat_np(B["S21"], k, k)
+                    if np.linalg.cond(X) > 1e3:
+                        ok = False
+            if ok:
+                return c
+        return gen_case(rng, "regular")
+    u = [gen.cdyadic(rng, pzero=0.2) for _ in range(N)]
+    d = [gen.cdyadic(rng, pzero=0.2) for _ in range(M)]
+    return {"As": As, "Bs": Bs, "u": u, "d": d, "kind": kind}
+
+
+def gen_case_structured(rng, N, K, M):
+    kind = "structured"
+    if True:
+        if rng.random() < 0.7:
+            N = M = K = max(K, 1)                       # square operands: where "neutral element" shortcuts would apply
+        ns = rng.randint(1, 3)
+        which = rng.choice(["A", "B", "both"])
+        As = [structured_smat(rng, N, K) if which in ("A", "both") else rand_smat(rng, N, K) for _ in range(ns)]
+        Bs = [structured_smat(rng, K, M) if which in ("B", "both") else rand_smat(rng, K, M) for _ in range(ns)]
+        if ns > 1 and rng.random() < 0.5:               # the same structured operand at every sweep point
+            if which in ("A", "both"):
+                As = [As[0]] * ns
+            if which in ("B", "both"):
+                Bs = [Bs[0]] * ns
     u = [gen.cdyadic(rng, pzero=0.2) for _ in range(N)]
     d = [gen.cdyadic(rng, pzero=0.2) for _ in range(M)]
     return {"As": As, "Bs": Bs, "u": u, "d": d, "kind": kind}
@@ -228,7 +282,7 @@ def run(ctx):
         if ctx.time_left() < 0:
             break
         r = rng.random()
-        kind = "mismatch" if r < 0.08 else "singular" if r < 0.14 else "regular"
+        kind = "mismatch" if r < 0.08 else "singular" if r < 0.14 else "structured" if r < 0.4 else "regular"
         case = gen_case(rng, kind)
         A0, B0 = case["As"][0], case["Bs"][0]
         nz = any(z != gen.CZ for row in A0["S12"] for z in row) and any(z != gen.CZ for row in B0["S21"] for z in row)
